@@ -65,6 +65,13 @@ PROPS = {
     "C05": {"lean": CTLMOD, "prefixes": ["c05_", "c02_failed_detached", "c18_removed_silent", "ctl_reachable_inv"],
             "runs": [ctl("faults", 640, 30, 12000, 40, 14)], "modelled": CTL + [
                 "partial: that the detector fires (ping ticker, RPC deadline, TCP close) is runtime behaviour; the model takes 'the monitor fires' / 'the call returns an error' as events"]},
+    "C08": {"lean": ["JivaVerif.Properties.C12"], "prefixes": ["c12_reopen"], "level": "fault_enumeration",
+            "runs": [{"engine": "crashdiff", "profile": "all", "salt": 41, "workers": 16, "split": False,
+                      "quick": {"n": 2, "len": 0, "timeout": 600}, "thorough": {"n": 24, "len": 0, "timeout": 6000}}],
+            "modelled": ["enumerated, not proved: for sampled pre-states and every management / data operation, EVERY boundary between two mutating file-system calls of the operation (strace, kill on entry of the call) and EVERY single failing call (ENOSPC, EIO) is exercised against the real replica code; the recovered directory is opened by the real code and compared with the state before and after",
+                         "tie to the Lean replica model: the state after a completed operation and a reopen must be the one the model specifies (chain, attributes, counter, size, data)",
+                         "assumed: kernel atomicity of a single call (rename, link, unlink, O_SYNC write of a small record); power-loss reordering is out of scope (process death + the directory-flush lint)",
+                         "strace counts per tracee thread: the victim runs the operation on one locked OS thread with GOMAXPROCS=1"]},
     "C09": {"lean": CTLMOD, "prefixes": ["c09_", "maxRevCount_", "ctl_reachable_inv"],
             "runs": [ctl("election", 480, 30, 9000, 40, 15)], "modelled": CTL + [
                 "partial: the replica-side registration loop (sync.AddReplica, 5 s ticker) is modelled as 'registration may repeat'"]},
@@ -86,12 +93,12 @@ PROPS = {
                 "modelled: one copy of the chain metadata; that the *.meta files and the in-memory tables stay equal is checked by the correspondence runs (chain, attributes, data after every request and after reopen), not proved"]},
     "C17": {"lean": ["JivaVerif.Properties.C17", "JivaVerif.Properties.Rest"],
             "runs": [rep("modes", 480, 32, 6000, 45, 7),
-                     {"engine": "restdiff", "profile": "replica", "salt": 32, "workers": 8,
+                     {"engine": "restdiff", "profile": "replica", "salt": 32, "workers": 8, "split": False,
                       "quick": {"n": 0, "len": 0}, "thorough": {"n": 3000, "len": 0, "timeout": 3000}}],
             "modelled": FS + ["the REST action table is regenerated from replica/rest/model.go on every run (T1) and every (state, action) pair is sent to the real router (restdiff): 404 iff the model says gated"]},
     "C14": {"lean": ["JivaVerif.Properties.Rest"], "prefixes": ["c14_", "c17_rest_gate", "c17_error_offers_nothing"],
             "level": "exploration",
-            "runs": [{"engine": "restdiff", "profile": "all", "salt": 31, "workers": 8,
+            "runs": [{"engine": "restdiff", "profile": "all", "salt": 31, "workers": 8, "split": False,
                       "quick": {"n": 0, "len": 0}, "thorough": {"n": 4000, "len": 0, "timeout": 3000}}],
             "modelled": ["searched, not proved: handler panics, fatal runtime errors, deadlocks and leaked locks are looked for by sending every route x method x body class x state to the REAL routers, one request per fresh state, in child processes (a crash or hang is attributed to the request); finding nothing is not a proof",
                          "proved: the REST action gate over the regenerated action table; the chain comparison of VerifyRebuildReplica is total (no slice out of range)",
